@@ -94,7 +94,7 @@ var c05ConcLens = []int{1, 2, 47, 48, 49, 96, 97, 100, 512, 2000, 4096, 16384, 3
 
 func c05GenRetryConc(r *Rand, i int) *c05In {
 	c := &c04Conc{Hosts: r.Range(2, 3), Procs: []int{1, 1, 1, 2, 0}[i%5], Wire: i%4 == 3, Flush: r.Chance(20), GC: r.Chance(15),
-		Block: "  fail_timeout 10s\n  max_fails 100000\n"}
+		Block: "  fail_timeout 10s\n  max_fails 100000\n", TryD: "10s"}
 	salts := r.Perm(250)
 	s := 0
 	next := func() int { s++; return salts[s-1] + 1 }
